@@ -52,8 +52,14 @@ def gen_spec(rng):
             k += 1
             left -= 1
 
+    P = [Fraction(1, 4), Fraction(1, 2), Fraction(1), Fraction(2), Fraction(4), Fraction(8)]
+    P = P + [-x for x in P]
+    # (ref, ref0) with ref, ref - ref0 both +-2^j: every scaler (ref - ref0, and ref as the default res_ref)
+    # is a power of two, so that scaling arithmetic is exact in binary64
+    PAIRS = [(r, r0) for r in P for r0 in P + [Fraction(0)] * 6 if (r - r0) in P]
+
     def dy(rng_):
-        return rng_.choice([Fraction(1, 4), Fraction(1, 2), 1, 2, 4, 8]) * rng_.choice([1, 1, -1])
+        return rng_.choice(P)
 
     # outputs first
     for c in comps:
@@ -62,17 +68,14 @@ def gen_spec(rng):
             o = {'name': 'o%d' % j, 'shape': sh, 'ref': 1, 'ref0': 0, 'res_ref': None, 'units': None}
             if profile in ('out', 'full') and rng.random() < 0.7:
                 n = prod(sh)
-                arr = rng.random() < 0.3
-                if arr:
-                    a1 = [dy(rng) for _ in range(n)]
-                    r0 = [rng.choice([0, 0, 1, -2, Fraction(1, 2), 3]) for _ in range(n)] if rng.random() < 0.6 else 0
-                    o['ref0'] = r0
-                    o['ref'] = [a1[i] + (r0[i] if isinstance(r0, list) else r0) for i in range(n)]
+                if rng.random() < 0.3:
+                    prs = [rng.choice(PAIRS) for _ in range(n)]
+                    o['ref'] = [a for a, _ in prs]
+                    o['ref0'] = [b for _, b in prs] if rng.random() < 0.6 else 0
+                    if o['ref0'] == 0:
+                        o['ref'] = [dy(rng) for _ in range(n)]
                 else:
-                    a1 = dy(rng)
-                    r0 = rng.choice([0, 0, 1, -2, Fraction(1, 2), 3])
-                    o['ref0'] = r0
-                    o['ref'] = a1 + r0
+                    o['ref'], o['ref0'] = rng.choice(PAIRS)
                 if rng.random() < 0.5:
                     o['res_ref'] = [dy(rng) for _ in range(n)] if rng.random() < 0.3 else dy(rng)
             if profile in ('units', 'full') and rng.random() < 0.7:
@@ -476,7 +479,7 @@ class C33(Spec):
         self.aux = {}
 
     def gen(self, tier, rng):
-        n = 700 if tier == 'quick' else 8000
+        n = 400 if tier == 'quick' else 6000
         return [gen_case(rng) for _ in range(n)]
 
     def search_gen(self, tier, rng):
@@ -500,9 +503,14 @@ class C33(Spec):
                 continue
             steps.append(em.step(st, a))
         data = '[%s]' % '; '.join(clist(case['init']['%d' % s]) for s in range(6))
+        used = set()
+        for st in case['steps']:
+            if st['op'] == 'scale':
+                s_ = em.slot(st['kind'], st['vec'])
+                used.update((s_, s_ - 1) if s_ % 2 else (s_,))
         scal = '[%s]' % '; '.join(
-            '(%s, %s)' % (qlist([v for v in (aux['scal'][s][0] or [])]), qopt_list(aux['scal'][s][1]))
-            for s in range(6))
+            ('(%s, %s)' % (qlist([v for v in (aux['scal'][s][0] or [])]), qopt_list(aux['scal'][s][1])))
+            if s in used else '([], None)' for s in range(6))
         run = '(run (mkSt %s %s) [%s])' % (data, scal, ';\n   '.join(steps))
         parts = [run]
         for ki, kind in enumerate(KINDS):
